@@ -27,6 +27,8 @@ theorem parserWF_succ (f : Nat) (ih : ParserWF f) : ParserWF (f + 1) := by
     split at h
     · cases h; simp [WF, level]
     · cases h; simp [WF, level]
+    · cases h; simp [WF, level]
+    · cases h; simp [WF, level]
     · -- assert
       split at h
       · split at h
@@ -45,7 +47,7 @@ theorem parserWF_succ (f : Nat) (ih : ParserWF f) : ParserWF (f + 1) := by
           · cases h
       · cases h
     · -- call
-      rename_i n r' hna
+      rename_i n r' _ hna
       split at h
       · cases h
       · rename_i args r2 hs
@@ -57,7 +59,7 @@ theorem parserWF_succ (f : Nat) (ih : ParserWF f) : ParserWF (f + 1) := by
         · intro hn; subst hn; exact hhead (by simp)
         · intro hn; exact hna hn
     · -- variable
-      rename_i n r' hna _
+      rename_i n r' _ hna _
       cases h
       refine ⟨?_, by simp [level]⟩
       simp only [WF, okName]
